@@ -164,7 +164,7 @@ macro_rules! fb_body {
             let raw = self.as_image();
             let size = self.size();
             let mut out = Vec::new();
-            for (cx, cy, dw, dh) in [(0i32, 2i32, 0u32, 0u32), (1, 2, 0, 1), (2, 3, 1, 0), (0, 3, 2, 0), (1, 0, 1, 1), (1, 1, 0, 0)] {
+            for (cx, cy, dw, dh) in [(0i32, 2i32, 0u32, 0u32), (1, 2, 0, 0), (2, 2, 1, 0), (3, 1, 0, 1), (0, 1, 2, 0), (1, 0, 1, 1), (1, 1, 0, 0)] {
                 let area = Rectangle::new(Point::new(cx, cy), Size::new(size.width.saturating_sub(cx as u32 + dw), size.height.saturating_sub(cy as u32 + dh)));
                 let mut r = R2::<C>::unbounded();
                 Image::new(&raw, Point::zero()).draw(&mut r.clipped(&area)).unwrap();
